@@ -46,6 +46,13 @@ fn judge_trace(prop: &'static str, trace: &[trace::Ev]) -> (Facts, Option<Violat
             let v2 = Violation::new("C15.intact", format!("behind a failed registration / failing source: {} ({})", v.detail, v.rule)).with_sig(v.sig.clone());
             (judged.facts, Some(v2), None)
         }
+        // C08: an operation issued from inside a callback "has the effect it would have outside a dispatch": a timer that
+        // a callback of the same dispatch re-armed, postponed, disabled or removed and that then fires early, for the
+        // wrong arming or although cancelled shows that the in-callback operation did not have that effect
+        Some((v, _)) if prop == "C08" && judged.facts.in_batch_mutation > 0 && matches!(v.rule.as_str(), "C05.early" | "C05.deadline" | "C05.cancelled") => {
+            let v2 = Violation::new("C08.effect", format!("in a history whose callbacks act on sources with an event in the same batch: {} ({})", v.detail, v.rule)).with_sig(v.sig.clone());
+            (judged.facts, Some(v2), None)
+        }
         Some((v, _)) => (judged.facts, None, Some(v)),
         None => (judged.facts, None, None),
     }
